@@ -133,7 +133,7 @@ def epochs_family(ld, r, count):
                 return v
             seed = r.randint(0, 10 ** 6)
             base = ld.new({f'key{i}': i for i in range(n)} if keyed else list(range(n)))
-            shape = r.choice(['map_reshuffle', 'reshuffle_map', 'lazyapply', 'reshuffle_map_prefetch1', 'lazyapply_reshuffle', 'lazyapply_part_reshuffle', 'lazyapply_reshuffle_map', 'tile_warn', 'selfconcat_warn', 'selfintersperse_warn', 'plain_warn'])
+            shape = r.choice(['map_reshuffle', 'reshuffle_map', 'lazyapply', 'reshuffle_map_prefetch1', 'lazyapply_reshuffle', 'lazyapply_part_reshuffle', 'lazyapply_reshuffle_map', 'tile_warn', 'selfconcat_warn', 'selfintersperse_warn', 'plain_warn', 'keyzip', 'keyzip'])
             sel = r.choice([exc, (exc, ValueError), Exception])
             try:
                 if shape == 'map_reshuffle': d = base.map(fn).shuffle(True, rng=np.random.RandomState(seed)).catch(sel)
@@ -143,6 +143,16 @@ def epochs_family(ld, r, count):
                 elif shape == 'selfconcat_warn': d = base.map(fn).concatenate(base.map(fn)).catch(sel, warn=True)
                 elif shape == 'selfintersperse_warn': d = base.map(fn).intersperse(base.map(fn)).catch(sel, warn=True)
                 elif shape == 'plain_warn': d = base.map(fn).catch(sel, warn=True)
+                elif shape == 'keyzip':
+                    # key_zip of two dict datasets with the same keys in different inner order (first and last key in place): the pairs
+                    # belong together by KEY on every access path of the catching stage
+                    ks = [f'key{i}' for i in range(n)]
+                    inner = ks[1:-1]
+                    r.shuffle(inner)
+                    order_b = ks[:1] + inner + (ks[-1:] if n > 1 else [])
+                    a_ds = ld.new({k: i for i, k in enumerate(ks)})
+                    b_ds = ld.new({k: int(k[3:]) for k in order_b}).map(fn)
+                    d = a_ds.key_zip(b_ds).catch(sel).map(_pair14)
                 elif shape == 'lazyapply_reshuffle': d = base.map(fn).apply(_Reshuffle(seed), lazy=True).catch(sel)
                 elif shape == 'lazyapply_part_reshuffle': d = base.map(fn).apply(_PartReshuffle(seed), lazy=True).catch(sel)
                 elif shape == 'lazyapply_reshuffle_map': d = base.apply(_Reshuffle(seed), lazy=True).map(fn).catch(sel)
@@ -151,7 +161,7 @@ def epochs_family(ld, r, count):
                 if shape in ('tile_warn', 'selfconcat_warn', 'selfintersperse_warn'):
                     want = sorted(want + want)
                 for epoch in range(4):
-                    use_items = keyed and epoch % 2 == 1 and not shape.startswith('lazyapply') and not shape.endswith('_warn')
+                    use_items = (keyed or shape == 'keyzip') and epoch % 2 == 1 and not shape.startswith('lazyapply') and not shape.endswith('_warn')
                     got = [kv[1] for kv in d.items()] if use_items else list(d)
                     if sorted(got) != want:
                         fails.append(dict(kind='history', summary=f'{shape} over {n} examples ({"dict" if keyed else "list"} source), examples {sorted(badset)} raise {exc.__name__}, caught {sel}: '
@@ -177,6 +187,10 @@ def epochs_family(ld, r, count):
             except Exception as e:
                 fails.append(dict(kind='history', summary=f'{shape} (n={n}, failing {sorted(badset)}, {exc.__name__} caught by {sel}) raised {type(e).__name__}: {e}'[:400], config=dict(n=n, shape=shape, seed=seed)))
     return fails
+
+
+def _pair14(t):
+    return t[0] if t[0] == t[1] else -1000 - t[0]
 
 
 class _Reshuffle:
